@@ -1517,8 +1517,14 @@ pub fn ldepth(g: &mut Gen, r: &mut Rng, cases: usize) {
         g.op(format!("list 0 {}", show_items(&mk(1))));
         g.op(format!("list 1 {}", show_items(&mk(2))));
         let d = g.op("ldepth 0 1".into());
-        if d != n.to_string() {
-            g.exec.fails.push(OracleFail { prop: "C13", line_no: g.exec.line_no, msg: format!("nested chain of {n} ranges recursed to depth {d}") });
+        // one-sided: nesting DEEPER than the chain is wrong; an implementation that nests less (an
+        // explicit-stack walk) uses less stack than the model allows, which C13 does not forbid
+        let deeper = match d.strip_prefix("depth=").and_then(|x| x.parse::<usize>().ok()) {
+            Some(x) => x > n,
+            None => true,
+        };
+        if deeper {
+            g.exec.fails.push(OracleFail { prop: "C13", line_no: g.exec.line_no, msg: format!("nested chain of {n} ranges recursed to {d}") });
         }
         g.cases += 1;
     }
